@@ -25,14 +25,14 @@ def seqStep (gt : α → α → Bool) (l : List α) : RbOp α → List α
   | .del i => l.eraseIdx i
 
 /-- the instances `l` of one (leaf-)list in sibling order and their `Lyds` record agree: the count; a valid tree; and the tree
-    — which exists from the second instance on, until the list is down to one instance and that one goes — lists exactly
-    the instances, in sibling order -/
+    — if there is one: it is built by the first `lyds_insert` that finds a leader — lists exactly the instances, in sibling
+    order -/
 def LydsOk (s : Lyds α) (l : List α) : Prop :=
-  s.n = l.length ∧ IsRB s.tree ∧ ((s.tree = T.nil ∧ l.length ≤ 1) ∨ inorder s.tree = l)
+  s.n = l.length ∧ IsRB s.tree ∧ (s.tree = T.nil ∨ inorder s.tree = l)
 
 /-- one edit of the list: `lyd_insert_node` of a new instance / `lyd_unlink` of the `i`-th one -/
 def lydsStep (gt : α → α → Bool) (st : Lyds α × List α) : RbOp α → Lyds α × List α
-  | .ins x => (st.1.insert gt st.2.head? x, sins (fun a b => !gt a b) x st.2)
+  | .ins x => (st.1.insert gt st.2 x, sins (fun a b => !gt a b) x st.2)
   | .del i => if i < st.2.length then (st.1.unlink i, st.2.eraseIdx i) else st
 
 theorem sins_length (r : α → α → Bool) (x : α) (l : List α) : (sins r x l).length = l.length + 1 := by
@@ -53,6 +53,44 @@ theorem sins_sorted_gt (x : α) (l : List α) (hs : l.Pairwise (fun a b => gt a 
     (by intro a b c; simpa using trans a b c) x l (by simpa using hs)
   simpa using this
 
+theorem sins_all_le (r : α → α → Bool) (x : α) : ∀ (l : List α), (∀ a ∈ l, r a x = true) → sins r x l = l ++ [x]
+  | [], _ => rfl
+  | a :: l, h => by
+    have ha := h a (List.mem_cons_self ..)
+    have ih := sins_all_le r x l (fun b hb => h b (List.mem_cons_of_mem _ hb))
+    unfold sins at ih ⊢
+    simp only [List.takeWhile_cons, List.dropWhile_cons, ha, if_true, List.cons_append]
+    rw [ih]
+
+include trans in
+/-- `lyds_additionally_create_rb_tree` and its continuation: instances that are in order, inserted in that order -/
+theorem build_ok : ∀ (l : List α) (t : T α), IsRB t → (inorder t ++ l).Pairwise (fun a b => gt a b = false) →
+    IsRB (l.foldl (fun t x => Rb.insert gt x t) t) ∧ inorder (l.foldl (fun t x => Rb.insert gt x t) t) = inorder t ++ l
+  | [], t, h, _ => ⟨h, by simp⟩
+  | x :: l, t, h, hs => by
+    simp only [List.foldl_cons]
+    have hs' := hs
+    rw [List.pairwise_append] at hs'
+    obtain ⟨ht, _, hcross⟩ := hs'
+    have hi : inorder (Rb.insert gt x t) = inorder t ++ [x] := by
+      rw [inorder_insert gt trans x t ht]
+      exact sins_all_le _ x _ (fun a ha => by simp [hcross a ha x (List.mem_cons_self ..)])
+    have := build_ok l (Rb.insert gt x t) (insert_isRB gt x t h) (by rw [hi]; simpa using hs)
+    rw [hi] at this
+    simpa using this
+
+include trans in
+theorem base_ok (t : T α) (l : List α) (hrb : IsRB t) (ht : t = T.nil ∨ inorder t = l)
+    (hs : l.Pairwise (fun a b => gt a b = false)) : IsRB (Lyds.base gt t l) ∧ inorder (Lyds.base gt t l) = l := by
+  cases t with
+  | nil =>
+    have := build_ok gt trans l T.nil isRB_nil (by simpa [inorder] using hs)
+    simpa [Lyds.base, inorder] using this
+  | node c a d b =>
+    rcases ht with h | h
+    · cases h
+    · exact ⟨hrb, h⟩
+
 include total trans in
 theorem lyds_step_ok (s : Lyds α) (l : List α) (o : RbOp α) (h : LydsOk s l) (hs : l.Pairwise (fun a b => gt a b = false)) :
     LydsOk (lydsStep gt (s, l) o).1 (lydsStep gt (s, l) o).2 ∧
@@ -66,28 +104,12 @@ theorem lyds_step_ok (s : Lyds α) (l : List α) (o : RbOp α) (h : LydsOk s l) 
     · have hl : l = [] := List.eq_nil_of_length_eq_zero (by omega)
       subst hl
       simp only [h0, if_true]
-      exact ⟨rfl, isRB_nil, Or.inl ⟨rfl, by simp [sins]⟩⟩
+      exact ⟨rfl, isRB_nil, Or.inl rfl⟩
     · simp only [h0, if_false]
-      -- the tree the insertion works on: the existing one, or the one built from the single instance
-      have key : IsRB (Lyds.base s.tree l.head?) ∧ inorder (Lyds.base s.tree l.head?) = l := by
-        rcases ht with ⟨hnil, hle⟩ | hin
-        · have h1 : l.length = 1 := by omega
-          match l, h1 with
-          | [o], _ =>
-            rw [hnil]
-            exact ⟨⟨⟨trivial, trivial, rfl⟩, ⟨trivial, trivial, by simp⟩, rfl⟩, rfl⟩
-        · cases htr : s.tree with
-          | nil => rw [htr] at hin; simp [inorder] at hin; subst hin; simp at hn; exact absurd hn h0
-          | node c a d b =>
-            have : Lyds.base (T.node c a d b) l.head? = T.node c a d b := by
-              unfold Lyds.base; split <;> simp_all
-            rw [this, ← htr]
-            exact ⟨hrb, hin⟩
-      generalize Lyds.base s.tree l.head? = t0 at key
-      obtain ⟨hrb0, hin0⟩ := key
-      refine ⟨by simp [sins_length, hn], insert_isRB gt x t0 hrb0, Or.inr ?_⟩
+      obtain ⟨hrb0, hin0⟩ := base_ok gt trans s.tree l hrb ht hs
+      refine ⟨by simp [sins_length, hn], insert_isRB gt x _ hrb0, Or.inr ?_⟩
       simp only
-      rw [inorder_insert gt trans x t0 (by rw [hin0]; exact hs), hin0]
+      rw [inorder_insert gt trans x _ (by rw [hin0]; exact hs), hin0]
   | del i =>
     simp only [lydsStep]
     by_cases hi : i < l.length
@@ -96,15 +118,12 @@ theorem lyds_step_ok (s : Lyds α) (l : List α) (o : RbOp α) (h : LydsOk s l) 
       simp only [Lyds.unlink]
       by_cases h1 : s.n ≤ 1
       · simp only [h1, if_true]
-        refine ⟨by simp [List.length_eraseIdx, hi]; omega, isRB_nil, Or.inl ⟨rfl, by simp [List.length_eraseIdx, hi]; omega⟩⟩
+        refine ⟨by simp [List.length_eraseIdx, hi]; omega, isRB_nil, Or.inl rfl⟩
       · simp only [h1, if_false]
-        have hin : inorder s.tree = l := by
-          rcases ht with ⟨_, hle⟩ | hin
-          · omega
-          · exact hin
-        refine ⟨by simp [List.length_eraseIdx, hi]; omega, remove_isRB i _ hrb, Or.inr ?_⟩
-        simp only
-        rw [inorder_remove, hin]
+        refine ⟨by simp [List.length_eraseIdx, hi]; omega, remove_isRB i _ hrb, ?_⟩
+        rcases ht with hnil | hin
+        · left; simp only; rw [hnil]; rfl
+        · right; simp only; rw [inorder_remove, hin]
     · simp only [hi, if_false]
       exact ⟨⟨hn, hrb, ht⟩, hs⟩
 
@@ -157,17 +176,22 @@ theorem lyds_split_ok (s : Lyds α) (l : List α) (i : Nat) (h : LydsOk s l) : L
   unfold Lyds.split
   by_cases h0 : i = 0
   · subst h0; simp only [if_true, List.take_zero]
-    exact ⟨rfl, isRB_nil, Or.inl ⟨rfl, Nat.zero_le _⟩⟩
+    exact ⟨rfl, isRB_nil, Or.inl rfl⟩
   · simp only [h0, if_false]
     by_cases h1 : s.n ≤ i
     · simp only [h1, if_true]
       rw [List.take_of_length_le (by omega)]
       exact ⟨hn, hrb, ht⟩
     · simp only [h1, if_false]
-      have hin : inorder s.tree = l := by
-        rcases ht with ⟨_, hle⟩ | hin
-        · omega
-        · exact hin
+      have hlen0 : (l.take i).length = i := by rw [List.length_take]; omega
+      rcases ht with hnil | hin
+      · have hnil' : ∀ k, (List.replicate k i).foldl (fun t j => Rb.remove j t) (T.nil : T α) = T.nil := by
+          intro k
+          induction k with
+          | zero => rfl
+          | succ k ih => simp only [List.replicate_succ, List.foldl_cons]; exact ih
+        rw [hnil, hnil']
+        exact ⟨by simp [hlen0], isRB_nil, Or.inl rfl⟩
       obtain ⟨g1, g2⟩ := remove_iter_ok i (s.n - i) s.tree hrb
       have hsplit : l = l.take i ++ l.drop i := (List.take_append_drop i l).symm
       have hlen : (l.take i).length = i := by rw [List.length_take]; omega
@@ -180,6 +204,42 @@ theorem lyds_split_ok (s : Lyds α) (l : List α) (i : Nat) (h : LydsOk s l) : L
       refine ⟨by simp [hlen], g1, Or.inr ?_⟩
       simp only
       rw [g2, hin, key]
+
+/-! ## merge with `LYD_MERGE_DESTRUCT` -/
+
+section
+variable (gt : α → α → Bool)
+variable (total : ∀ a b, gt a b = false ∨ gt b a = false)
+variable (trans : ∀ a b c, gt a b = false → gt b c = false → gt a c = false)
+
+include total trans in
+theorem destruct_run_ok (moves : List Nat) : ∀ (st : (Lyds α × List α) × (Lyds α × List α)),
+    LydsOk st.1.1 st.1.2 → st.1.2.Pairwise (fun a b => gt a b = false) → LydsOk st.2.1 st.2.2 → st.2.1.tree = T.nil →
+    let r := moves.foldl (destructStep gt) st
+    LydsOk r.1.1 r.1.2 ∧ r.1.2.Pairwise (fun a b => gt a b = false) ∧ LydsOk r.2.1 r.2.2 ∧ r.2.1.tree = T.nil := by
+  induction moves with
+  | nil => intro st h1 h2 h3 h4; exact ⟨h1, h2, h3, h4⟩
+  | cons i r ih =>
+    intro st h1 h2 h3 h4
+    simp only [List.foldl_cons]
+    apply ih
+    all_goals unfold destructStep
+    all_goals cases hx : st.2.2[i]? with
+      | none => simp only; first | exact h1 | exact h2 | exact h3 | exact h4
+      | some x => ?_
+    · have := (lyds_step_ok gt total trans st.1.1 st.1.2 (.ins x) h1 h2).1
+      simpa [lydsStep, Lyds.insert2, sins] using this
+    · have := (lyds_step_ok gt total trans st.1.1 st.1.2 (.ins x) h1 h2).2
+      simpa [lydsStep, sins] using this
+    · have hi : i < st.2.2.length := by
+        rcases Nat.lt_or_ge i st.2.2.length with h | h
+        · exact h
+        · rw [List.getElem?_eq_none h] at hx; cases hx
+      refine ⟨?_, isRB_nil, Or.inl rfl⟩
+      simp only [List.length_eraseIdx, hi, if_true]
+      rw [h3.1]
+    · rfl
+end
 
 end LyModel.Sib.Rb
 
